@@ -252,15 +252,15 @@ pub fn parse(k: CodecKind, b: &[u8]) -> Result<Parsed, String> {
     let mut items = vec![];
     while p < b.len() {
         if b.len() - p < 3 {
-            return Err(format!("{} stray bytes where a custom item should start", b.len() - p));
+            return Err(format!("tail: {} stray bytes where a custom item should start", b.len() - p));
         }
         let l = ((b[p] as usize) << 8) | b[p + 1] as usize;
         p += 2;
         if l == 0 {
-            return Err("empty custom item".into());
+            return Err("tail: empty custom item".into());
         }
         if b.len() - p < l {
-            return Err(format!("custom item length {l} exceeds the {} bytes left", b.len() - p));
+            return Err(format!("tail: custom item length {l} exceeds the {} bytes left", b.len() - p));
         }
         items.push(b[p..p + l].to_vec());
         p += l;
